@@ -165,6 +165,21 @@ class SimStream(io.StringIO):
             raise self.fail_write
         return super().write(s)
 
+    @property
+    def buffer(self):
+        """Binary view (code may write bytes to sys.stdout.buffer)."""
+        outer = self
+
+        class _Buf:
+            def write(self, b):
+                outer.write(bytes(b).decode("utf-8", "replace"))
+                return len(b)
+
+            def flush(self):
+                pass
+
+        return _Buf()
+
     def close(self):
         if self._final is None:
             self._final = super().getvalue()
@@ -321,11 +336,82 @@ def open_router(fs):
     builtins.open = routed
     saved_io = io.open
     io.open = routed
+    # code under test may look before it leaps: the usual os / os.path
+    # queries answer for the simulated disk as well
+    import stat as _stat
+    saved_os = {}
+
+    def _entry(path):
+        return fs.entries.get(fs.norm(path))
+
+    def exists(path):
+        if fs.owns(path):
+            return _entry(path) is not None
+        return saved_os["exists"](path)
+
+    def isfile(path):
+        if fs.owns(path):
+            e = _entry(path)
+            return e is not None and e["kind"] != "dir"
+        return saved_os["isfile"](path)
+
+    def isdir(path):
+        if fs.owns(path):
+            e = _entry(path)
+            return e is not None and e["kind"] == "dir"
+        return saved_os["isdir"](path)
+
+    def getsize(path):
+        if fs.owns(path):
+            return os_stat(path).st_size
+        return saved_os["getsize"](path)
+
+    def access(path, mode, **kw):
+        if fs.owns(path):
+            e = _entry(path)
+            if e is None:
+                return False
+            if e["kind"] == "unreadable":
+                return False
+            if e["kind"] == "unwritable" and mode & os.W_OK:
+                return False
+            return True
+        return saved_os["access"](path, mode, **kw)
+
+    def os_stat(path, *a, **kw):
+        if fs.owns(path):
+            e = _entry(path)
+            if e is None:
+                raise FileNotFoundError(errno.ENOENT,
+                                        "No such file or directory", path)
+            mode = (_stat.S_IFDIR | 0o755) if e["kind"] == "dir" else \
+                (_stat.S_IFREG | (0o000 if e["kind"] == "unreadable"
+                                  else 0o644))
+            size = len(e.get("data", b"") or b"")
+            return os.stat_result((mode, 0, 0, 1, 0, 0, size, 0, 0, 0))
+        return saved_os["stat"](path, *a, **kw)
+
+    for name, fn, owner in (("exists", exists, os.path),
+                            ("isfile", isfile, os.path),
+                            ("isdir", isdir, os.path),
+                            ("getsize", getsize, os.path),
+                            ("access", access, os), ("stat", os_stat, os)):
+        saved_os[name] = getattr(owner, name)
+        setattr(owner, name, fn)
+    saved_os["lexists"] = os.path.lexists
+    os.path.lexists = exists
     try:
         yield fs
     finally:
         builtins.open = real_open
         io.open = saved_io
+        os.path.exists = saved_os["exists"]
+        os.path.isfile = saved_os["isfile"]
+        os.path.isdir = saved_os["isdir"]
+        os.path.getsize = saved_os["getsize"]
+        os.path.lexists = saved_os["lexists"]
+        os.access = saved_os["access"]
+        os.stat = saved_os["stat"]
 
 
 # ---------------------------------------------------------------------------
